@@ -250,6 +250,16 @@ take_reset_contract!(handle_take_errtaken, 4);
 // ------------------------------------------------------------------------------------------------
 const F32_BYTES: usize = (2 + 7) * 4;
 
+/// AlignedGrid::with_alloc_tracker ends with `buf.resize_with(len + offset, ..)`, `offset` derived from the buffer address. It
+/// always truncates (the Vec was created with len + 31 / size_of::<S>() elements), but CBMC explores the "grow" branch
+/// (Vec::reserve -> realloc -> copy of a symbolically sized object), which costs 15-30 GB. This model replaces Vec::reserve in the
+/// ImageBuffer harnesses and ASSERTS that it is never reached, so what is verified is exactly the real code (a reached reserve
+/// fails the untagged assert in this file: UNDECIDED, never "held"). Needs #![feature(allocator_api)] (crate_attrs in the registry).
+fn no_reserve<T, A: core::alloc::Allocator>(_v: &mut Vec<T, A>, _additional: usize) {
+    assert!(false, "harness model: no Vec growth is reachable");
+    kani::assume(false);
+}
+
 fn exactly_left(t: &AllocTracker, bytes: usize) -> bool {
     // no getter for the budget: it is `bytes` iff exactly `bytes` can be taken away and then nothing more
     t.shrink_limit(bytes).is_ok() && t.shrink_limit(1).is_err()
@@ -259,6 +269,7 @@ macro_rules! float_conversion_contract {
     ($name:ident, $variant:ident, $ty:ty, $src_bytes:expr, $slack:expr, $convert:expr) => {
         #[kani::proof]
         #[kani::unwind(18)]
+        #[kani::stub(std::vec::Vec::reserve, no_reserve)]
         fn $name() {
             // budget = source grid + f32 copy + slack, slack in {-1 (one byte short), 0 (exact fit)}: the two sides of
             // the exhaustion boundary; a symbolic budget does not close in CBMC together with the allocator paths
@@ -301,6 +312,7 @@ macro_rules! float_conversion_values {
     ($name:ident, $variant:ident, $ty:ty) => {
         #[kani::proof]
         #[kani::unwind(18)]
+        #[kani::stub(std::vec::Vec::reserve, no_reserve)]
         fn $name() {
             let Ok(mut g) = AlignedGrid::<$ty>::with_alloc_tracker(2, 1, None) else { return; };
             let s0: $ty = kani::any();
@@ -310,7 +322,11 @@ macro_rules! float_conversion_values {
             let bits: u32 = kani::any();
             kani::assume(bits >= 1 && bits <= 31);
             let bd = BitDepth::IntegerSample { bits_per_sample: bits };
-            let mut a = ImageBuffer::$variant(g.try_clone().unwrap());
+            // a second grid with the same samples (try_clone grows a Vec, which the no_reserve model forbids)
+            let Ok(mut g2) = AlignedGrid::<$ty>::with_alloc_tracker(2, 1, None) else { return; };
+            g2.buf_mut()[0] = s0;
+            g2.buf_mut()[1] = s1;
+            let mut a = ImageBuffer::$variant(g2);
             let mut b = ImageBuffer::$variant(g);
             let fa = a.cast_to_float().unwrap();
             assert!(fa.buf()[0].to_bits() == (s0 as f32).to_bits() && fa.buf()[1].to_bits() == (s1 as f32).to_bits(),
